@@ -25,9 +25,13 @@ def corpus(tier, seed):
         std_spec("nonuni2", s + 7, 50, accumulate_weights=True),
         std_spec("gauss2", s + 8, 50, truncate_log_q=True),
         std_spec("rosen2", s + 9, 50, fixed_radius=2.5, constant_volume_mode=False),
+        std_spec("gauss2", s + 13, 50, constant_volume_mode=False, expansion_fraction=0.0, fuzz=1.0),
+        std_spec("rosen2", s + 14, 25, constant_volume_mode=False, expansion_fraction=0.5),
         std_spec("plateau2", s + 10, 25, update_poolsize=False),
         std_spec("hole2", s + 11, 50, reparameterisations={"x0": "rescaletobounds", "x1": "logit"}),
         std_spec("gauss2", s + 12, 50, flow_proposal_class="clusteringflowproposal"),
+        std_spec("angle2", s + 21, 50, reparameterisations={"phi": "angle", "y": "rescaletobounds"}),
+        std_spec("angle2", s + 22, 25, reparameterisations={"phi": "angle-2pi"}, kills=[150]),
     ]
     if tier == "thorough":
         k = 13
